@@ -36,6 +36,8 @@ deriving Repr, DecidableEq
 
 inductive Act where
   | reset (connWin streamWin : Int)                       -- new server connection, configured receive windows
+  | ereset (connWin streamWin : Int)                      -- same, but the peer does not acknowledge the server's SETTINGS yet
+  | ack                                                   -- the peer acknowledges the server's SETTINGS
   | treset (connWin streamWin : Int)                      -- new Transport connection (the endpoint is the client)
   | req (sid : Nat) (kind : Nat)                          -- Transport: application starts a request (0 GET, 1 POST whose body stays open, 2 HEAD)
   | rhdr (sid : Nat) (es : Bool)                          -- Transport: peer sends the response HEADERS
@@ -71,6 +73,9 @@ structure StreamSt where
   bodyClosed : Bool  -- the application closed the body
   lingers : Bool     -- Transport: the stream stays registered after the peer's END_STREAM (request body still open)
   isHead : Bool      -- Transport: HEAD request (any DATA payload is a protocol error)
+  short : Int        -- by how much the window the server ENFORCES is below the advertised `win`: the server
+                     -- applies a configured stream window < 65535 before the peer has acknowledged the SETTINGS
+                     -- announcing it (known finding pre-ack-small-stream-window); 0 otherwise
 deriving Repr, DecidableEq
 
 structure Mon where
@@ -78,6 +83,7 @@ structure Mon where
   dead : Bool            -- connection-level error / close: nothing further is checked
   transport : Bool       -- role of the endpoint under test: false = server, true = Transport
   goneAway : Bool        -- server: graceful GOAWAY sent; streams opened afterwards are ignored (their DATA is discarded)
+  acked : Bool           -- the peer has acknowledged the endpoint's SETTINGS (SETTINGS_INITIAL_WINDOW_SIZE in force)
   configured : Int       -- configured connection receive window
   streamInit : Int       -- advertised initial stream window
   conn : Int             -- peer's view of the connection receive window
@@ -88,7 +94,7 @@ structure Mon where
 deriving Repr, DecidableEq
 
 /-- Before any connection: the RFC initial window, nothing sent or received. -/
-def Mon.init : Mon := ⟨false, false, false, false, 0, 0, initialWindowSize, 0, 0, 0, []⟩
+def Mon.init : Mon := ⟨false, false, false, false, true, 0, 0, initialWindowSize, 0, 0, 0, []⟩
 
 def findStream (ss : List StreamSt) (sid : Nat) : Option StreamSt :=
   ss.find? (fun s => s.id == sid)
@@ -161,8 +167,14 @@ def dataAct (m : Mon) (sid : Nat) (len pad : Int) (es : Bool) : ActOut :=
         let ss := updStream m.streams sid (fun s => { s with status := if es then endedStatus m s else s.status })
         ⟨{ m with streams := ss }, none⟩
       else if st.isHead ∧ len > 0 then connOnlyAct m sid L
-      else if L > m.conn ∨ L > st.win then ⟨m, some (fcTarget m sid)⟩
+      else if L > m.conn ∨ L > st.win - st.short then ⟨m, some (fcTarget m sid)⟩
       else acceptAct m st sid len L es
+
+/-- The stream window advertised to the peer for a new stream: SETTINGS_INITIAL_WINDOW_SIZE once the
+peer has acknowledged it; before that the protocol default 65535 if that is larger
+(RFC 9113 6.5.3, 6.9.2). -/
+def advWin (m : Mon) : Int :=
+  if m.acked then m.streamInit else if m.streamInit < initialWindowSize then initialWindowSize else m.streamInit
 
 def setStatus (m : Mon) (sid : Nat) (st : SStatus) : Mon :=
   { m with streams := updStream m.streams sid (fun s => { s with status := st }) }
@@ -171,6 +183,15 @@ def actStep (m : Mon) : Act → ActOut
   | .reset c s =>
     if s < 0 ∨ s > maxWindow then ⟨{ Mon.init with started := true, dead := true }, none⟩
     else ⟨{ Mon.init with started := true, configured := c, streamInit := s }, none⟩
+  | .ereset c s =>
+    if s < 0 ∨ s > maxWindow then ⟨{ Mon.init with started := true, dead := true }, none⟩
+    else ⟨{ Mon.init with started := true, configured := c, streamInit := s, acked := false }, none⟩
+  | .ack =>
+    -- the acknowledged SETTINGS_INITIAL_WINDOW_SIZE takes effect: every stream window moves by the
+    -- difference, and from here on advertised = enforced
+    if m.acked then ⟨m, none⟩
+    else ⟨{ m with acked := true,
+                   streams := m.streams.map (fun s => { s with win := s.win - s.short, short := 0 }) }, none⟩
   | .treset c s =>
     -- the Transport adds its configured buffer to the RFC default window (never beyond 2^31-1), and keeps one
     -- request without response open on stream 1 (the harness' observer of connection errors)
@@ -178,11 +199,11 @@ def actStep (m : Mon) : Act → ActOut
     else ⟨{ Mon.init with started := true, transport := true,
                           configured := (if c + initialWindowSize > maxWindow then maxWindow else c + initialWindowSize),
                           streamInit := s, maxSid := 1,
-                          streams := [⟨1, .preHeaders, s, -1, 0, 0, false, false, false⟩] }, none⟩
+                          streams := [⟨1, .preHeaders, s, -1, 0, 0, false, false, false, 0⟩] }, none⟩
   | .req sid kind =>
     if sid ≤ m.maxSid ∨ sid % 2 = 0 then ⟨{ m with dead := true }, none⟩
     else ⟨{ m with maxSid := sid,
-                   streams := ⟨sid, .preHeaders, m.streamInit, -1, 0, 0, false, decide (kind = 1), decide (kind = 2)⟩ :: m.streams }, none⟩
+                   streams := ⟨sid, .preHeaders, m.streamInit, -1, 0, 0, false, decide (kind = 1), decide (kind = 2), 0⟩ :: m.streams }, none⟩
   | .rhdr sid es =>
     let ss := updStream m.streams sid (fun s =>
       if s.status = .preHeaders then { s with status := if es then endedStatus m s else .open_ } else s)
@@ -193,13 +214,13 @@ def actStep (m : Mon) : Act → ActOut
       -- HEADERS above the GOAWAY's last stream id are ignored; DATA on that stream is discarded:
       -- charged to and refunded on the connection window only
       ⟨{ m with maxSid := sid,
-                streams := ⟨sid, .closed, m.streamInit, cl, 0, 0, false, false, false⟩ :: m.streams }, none⟩
+                streams := ⟨sid, .closed, advWin m, cl, 0, 0, false, false, false, advWin m - m.streamInit⟩ :: m.streams }, none⟩
     else ⟨{ m with maxSid := sid,
-                   streams := ⟨sid, if es then .halfRemote else .open_, m.streamInit, cl, 0, 0, false, false, false⟩ :: m.streams }, none⟩
+                   streams := ⟨sid, if es then .halfRemote else .open_, advWin m, cl, 0, 0, false, false, false, advWin m - m.streamInit⟩ :: m.streams }, none⟩
   | .shutdown sid =>
     if sid ≤ m.maxSid ∨ sid % 2 = 0 ∨ m.transport ∨ m.goneAway then ⟨{ m with dead := true }, none⟩
     else ⟨{ m with maxSid := sid, goneAway := true,
-                   streams := ⟨sid, .halfRemote, m.streamInit, -1, 0, 0, false, false, false⟩ :: m.streams }, none⟩
+                   streams := ⟨sid, .halfRemote, advWin m, -1, 0, 0, false, false, false, advWin m - m.streamInit⟩ :: m.streams }, none⟩
   | .data sid len pad es => dataAct m sid len pad es
   | .read _ => ⟨m, none⟩
   | .bclose sid =>
@@ -302,6 +323,7 @@ def liveLine (m : Mon) (act : Act) (obs : List Obs) : Except String Mon :=
 def lineStep (m : Mon) (l : Line) : Except String Mon :=
   match l.act with
   | .reset .. => resetLine m l
+  | .ereset .. => resetLine m l
   | .treset .. => resetLine m l
   | act0 =>
     if !m.started then .ok m  -- nothing to check before a connection exists
